@@ -75,8 +75,9 @@ class Behaviour(object):
     Signals not mentioned get the default disposition (terminate at once, or
     ignore for CHLD/WINCH/URG/CONT).  SIGKILL cannot be caught."""
 
-    def __init__(self, name='obedient', reactions=None, children=(), kill_latency=0.0):
+    def __init__(self, name='obedient', reactions=None, children=(), kill_latency=0.0, last_words=0):
         self.name = name
+        self.last_words = last_words          # bytes written to stdout at the very moment a delayed death takes place
         self.reactions = dict(reactions or {})
         self.children = tuple(children)      # behaviours of child processes
         self.kill_latency = kill_latency
@@ -117,7 +118,7 @@ class Proc(object):
     __slots__ = ('pid', 'parent', 'children', 'state', 'wstatus', 'behaviour', 'argv',
                  'env', 'cwd', 'close_fds', 'shell', 'executable', 'spawn_time',
                  'death_time', 'signals', 'out_w', 'err_w', 'watcher', 'wid', 'role',
-                 'inherit_fds', 'is_worker', 'popen', 'reaped_by', 'pending_death', 'pass_fds', 'orig_parent', 'child_fds', 'death_seq', 'death_cause')
+                 'inherit_fds', 'is_worker', 'popen', 'reaped_by', 'pending_death', 'pass_fds', 'orig_parent', 'child_fds', 'death_seq', 'death_cause', 'said')
 
     def __init__(self, pid):
         self.pid = pid
@@ -135,6 +136,7 @@ class Proc(object):
         self.spawn_time = CLOCK.now
         self.death_time = None
         self.death_cause = None
+        self.said = None
         self.signals = []            # (t, signum, sent_by)
         self.out_w = self.err_w = None
         self.watcher = None
@@ -287,8 +289,16 @@ class SimKernel(object):
             self.die(pid, st, cause='signal')
         elif not p.pending_death or sig == signal.SIGKILL:
             p.pending_death = True
-            self.at(delay, lambda: self.die(pid, st, cause='signal'),
-                    ('death', pid))
+
+            def _die(pid=pid, st=st, p=p):
+                n = getattr(p.behaviour, 'last_words', 0)
+                if n and p.state == RUNNING and p.out_w is not None:
+                    data = (b'last words of %d;' % pid) * (n // 12 + 1)
+                    data = data[:n]
+                    os.write(p.out_w, data)
+                    p.said = (getattr(p, 'said', None) or b'') + data
+                self.die(pid, st, cause='signal')
+            self.at(delay, _die, ('death', pid))
 
     # --- os.kill / os.waitpid ----------------------------------------------
     @_guard
